@@ -148,8 +148,8 @@ func (h *Handler) receive(ctx context.Context, conn net.Conn, queue chan data, e
 				h.sendResponse(ctx, queue, index, nil, core.ErrRequestEntityTooLarge)
 				return
 			}
-			body := make([]byte, length)
-			if _, err := io.ReadAtLeast(conn, body, length); err != nil {
+			body, err := readBody(conn, length)
+			if err != nil {
 				h.reportError(ctx, errChan, err)
 				return
 			}
